@@ -556,6 +556,14 @@ theorem signal_on_grid_values {n L : Nat} (Yf : Vec3 ℝ → Fin n → ℝ) (irs
     rw [List.forall₂_map_right_iff, List.forall₂_same]
     intro x hx
     rw [signal_xyz_eq Yf irs hg hl hn, normalize_unit x (((grid_points _ _).2.1 row hrow).2 x hx)]
+/-- `hT` is satisfiable: the direct evaluation `values[b][a] = Y(x_ba) · c` -/
+example {n : Nat} (Yf : Vec3 ℝ → Fin n → ℝ) (c : Fin n → ℝ) :
+    ∃ toGrid : Nat → Nat → List ℝ → List (List ℝ), ∀ rb ra, toGrid rb ra (List.ofFn c) =
+      (s2GridPoints rb ra).map fun row => row.map fun x => ∑ i, c i * Yf x i := by
+  refine ⟨fun rb ra l => (s2GridPoints rb ra).map fun row => row.map fun x => dot (ofY Yf x) l, fun rb ra => ?_⟩
+  simp only [ofY, dot_ofFn]
+  congr 1; funext row; congr 1; funext x
+  apply Finset.sum_congr rfl; intro i _; ring
 example : completeRes 3 20 = .ok (20, 19) := by decide
 example : completeRes 3 7 = .error "AssertionError" := by decide
 example : completeRes 4 8 = .error "AssertionError" := by decide
